@@ -31,8 +31,12 @@ def oracle_c01(seed, tier):
     return oracle_image.check_c01(seed, tier)
 
 
+def oracle_successive(seed, tier):
+    return oracle_image.check_successive(seed, tier)
+
+
 def checks(tier):
-    return [corr_readmeta, corr_getitem, corr_layouts, oracle_c01]
+    return [corr_readmeta, corr_getitem, corr_layouts, oracle_c01, oracle_successive]
 
 
 def replay(payload):
